@@ -199,7 +199,7 @@ def c04_covers(run):
     w = quiet()
     try:
         vals = gen.values_for(None) + C04_VALUES
-        pool = list(element_cases(2)) + list(c04_extra())
+        pool = list(element_cases(2 if run.tier == "quick" else 3)) + list(c04_extra())
         for i, mk, e in pool:
             for v in vals:
                 kind, r = outcome(e, copy.deepcopy(v))
